@@ -3,6 +3,8 @@ from common import *
 import graphs as G, samplecorr as SC, exact as X
 from fractions import Fraction as Fr
 import mpmath
+import importlib
+c07 = importlib.import_module("props.c07")
 
 
 def run(rep, rng, tier, replay=None):
@@ -43,6 +45,9 @@ def run(rep, rng, tier, replay=None):
         if not rel_close(jac, float(ex), 1e-12 * (4 + D + abs(dod))):
             bad.append("jacobian = %r, normalisation * u^(-D/2) * v^(-dod) = %r" % (jac, float(ex)))
         # invariance under the internal rescaling: the same value from the UNRESCALED parameters
+        if not all(math.isfinite(t) for t in SC.floats(fi["x_pre"])):
+            skipped += 1
+            continue
         xpre = [Fr(t) for t in SC.floats(fi["x_pre"])]
         shifts = [[Fr(s) for s in sh] for sh in n["shifts"]]
         masses = [Fr(mm) for mm in n["masses"]]
@@ -57,6 +62,26 @@ def run(rep, rng, tier, replay=None):
                 * (mpmath.mpf(vt) / (mpmath.mpf(Vp.numerator) / Vp.denominator)) ** mpmath.mpf(dod)
             if not rel_close(jac, float(un), 1e-10 * float(ratio * kap) * (4 + D + abs(dod))):
                 bad.append("jacobian = %r, but I_tr.. (U_tr/U)^(D/2) (V_tr/V)^dod at the unrescaled parameters = %r" % (jac, float(un)))
+            # the same with the TRUE tropical polynomials (largest monomials of U and F, brute force), not the logged ones
+            ext = set(c["externals"])
+            allv = {v for pr in n["pairs"] for v in pr}
+            if E <= 7 and ext <= allv and (len(ext) >= 2 or (len(ext) == 0 and any(e[2] for e in c["edges"]))):
+                trees = G.spanning_trees(n["pairs"])
+                Ut = None
+                for T in trees:
+                    pr_ = Fr(1)
+                    for e in range(E):
+                        if e not in T:
+                            pr_ *= xpre[e]
+                    Ut = pr_ if Ut is None or pr_ > Ut else Ut
+                Fm = c07.f_monomial_max(c, xpre, trees)
+                if Ut is not None and Fm is not None:
+                    Vt = Fm / Ut
+                    un2 = mpmath.mpf(fac) * (mpmath.mpf(Ut.numerator) / Ut.denominator / (mpmath.mpf(Up.numerator) / Up.denominator)) ** (mpmath.mpf(D) / 2) \
+                        * (mpmath.mpf(Vt.numerator) / Vt.denominator / (mpmath.mpf(Vp.numerator) / Vp.denominator)) ** mpmath.mpf(dod)
+                    if not rel_close(jac, float(un2), 1e-9 * float(ratio * kap) * (4 + D + abs(dod))):
+                        bad.append("jacobian = %r, but normalisation x (U_tr/U)^(D/2) (V_tr/V)^dod with the true tropical polynomials "
+                                   "(largest monomials, brute force) at the unrescaled parameters = %r" % (jac, float(un2)))
         if bad:
             rep.violation("property", "; ".join(bad[:3]), case=c, failing_input=True, what="jacobian formula / rescaling invariance fails")
         rep.sample(dict(family=c["family"], D=D, L=L, dod=dod, jacobian=jac, u=u, v=v))
